@@ -542,9 +542,70 @@ def rule_both_axes(chk, prog):
                                 "run / computeDescentVectorOnBothAxes no longer project through setPosition")
 
 
+def rule_idle_axis_reported(chk, prog):
+    from ..rules.guards import path_condition, atoms, entails
+    r = chk.rule("IDLE-AXIS-REPORTED", "ConstrainedFDLayout::run ends every iteration with a setPosition(..) that asks its projections to record what they "
+                 "could not satisfy, for BOTH dimensions: moveTo(dim, .., record) hands the constraints the projection left flagged to the "
+                 "per-dimension unsatisfiable list after project(..) and before the constraints are deleted -- applyForcesAndConstraints only "
+                 "runs for the dimensions being laid out, so for run(true, false) this is the only place where a dropped y constraint can be "
+                 "reported; NonOverlapConstraints stops offering pairs once the front pair has been processed (makeFeasible terminates)", floor=3)
+    frun = prog.fn("cola::ConstrainedFDLayout::run")
+    sp = [c for c in calls(frun) if c.get("cname") == "cola::ConstrainedFDLayout::setPosition"]
+    r.count()
+    rec = [c for c in sp if len(call_args(c)) >= 2 and literal_value(call_args(c)[1]) == "true"]
+    bad = None
+    if not rec:
+        bad = "no setPosition call of run() asks for the dropped constraints to be recorded"
+    else:
+        lp = [a for a in frun.ancestors(rec[0]) if a.get("k") in ("DoStmt", "WhileStmt", "ForStmt")]
+        ats = [a for a in atoms(path_condition(frun, rec[0], inline=False, early=True)) if "preIteration" not in a and "done" not in a]
+        if not lp:
+            bad = "the recording projection is not part of the iteration"
+        elif ats:
+            bad = "the recording projection at the end of an iteration is conditional on %s" % ats[:2]
+    (r.bad if bad else r.ok)("run: recording projection each iteration", frun.loc(rec[0]) if rec else frun.where(), bad or "")
+    fm = prog.fn("cola::ConstrainedFDLayout::moveTo")
+    g = CFG(fm)
+    proj = [c for c in calls(fm) if c.get("cname") == "cola::project"]
+    recs = [c for c in calls(fm) if c.get("cname") in ("cola::checkNewlyUnsatisfiable", "cola::checkUnsatisfiable")]
+    dels = [c for c in calls(fm) if str(c.get("cname", "")).startswith("std::for_each") and "delete_object" in norm(c) and "cs." in norm(c)]
+    r.count()
+    bad = None
+    if not proj:
+        raise AnalysisBroken("moveTo: project call not found")
+    if not recs:
+        bad = "moveTo never hands the constraints its projection left unsatisfied to the unsatisfiable lists"
+    else:
+        ats = [a for a in atoms(path_condition(fm, recs[0], inline=False))]
+        pname = fm.params[2]["name"] if len(fm.params) > 2 else None
+        if pname is None or pname not in ats:
+            bad = "the recording in moveTo is not controlled by its caller"
+        elif any(a not in (pname, "(unsatisfiable.size() == 2)") for a in ats):
+            bad = "the recording in moveTo depends on %s" % [a for a in ats if a not in (pname, "(unsatisfiable.size() == 2)")][:2]
+        elif g.search([g.after(proj[0]["id"])], targets=[recs[0]["id"]]) is None:
+            bad = "constraints are recorded before the projection has run"
+        elif dels and g.search([g.after(dels[0]["id"])], targets=[recs[0]["id"]]) is not None:
+            bad = "constraints are recorded after they have been deleted"
+        elif "unsatisfiable[dim]" not in norm(call_args(recs[0])[1]):
+            bad = "the dropped constraints are not recorded in the list of the projected dimension"
+    (r.bad if bad else r.ok)("moveTo records on request", fm.loc(recs[0]) if recs else fm.where(), bad or "")
+    fa = prog.fn("cola::NonOverlapConstraints::getCurrSubConstraintAlternatives")
+    r.count()
+    stop = False
+    for n in fa.nodes():
+        if n.get("k") == "IfStmt" and "processed" in norm(n["cond"]) and any(x.get("k") == "ReturnStmt" for x in walk(n.get("then") or {})) \
+                and not entails(path_condition(fa, n["then"], inline=False), ("const", False)):
+            if any(written_field(lhs)[0].endswith("_currSubConstraintIndex") for lhs, node, op in writes(fa)
+                   if any(y.get("id") == node.get("id") for y in walk(n["then"]))):
+                stop = True
+    (r.ok if stop else r.bad)("non-overlap pairs are offered once", fa.where(), "" if stop else
+                              "a pair that has already been processed is offered again: with only unresolvable pairs left makeFeasible() never returns")
+
+
 def run(chk):
     prog = chk.load()
     cg = CallGraph(prog)
+    chk.guard(rule_idle_axis_reported, chk, prog)
     chk.guard(rule_both_axes, chk, prog)
     chk.guard(rule_fixed_relative, chk, prog)
     chk.guard(rule_done_reset, chk, prog)
